@@ -2,8 +2,9 @@ package httpserver
 
 // Harness for C01 (DESIGN 5/C01): HTTP routing with the route cache off.
 //   TestVerifC01Replay - replays TLC-generated behaviours (configuration + requests with the
-//                        contract's predicted outcome; "unmap" steps delete a backend from the
-//                        MuxMapper between two requests) on a real mux, cacheSize 0 (MBT)
+//                        contract's predicted outcome; "unmap" / "map" / "remap" steps delete,
+//                        create or replace a backend behind the MuxMapper between two requests)
+//                        on a real mux, cacheSize 0 (MBT)
 //   TestVerifC01Trace  - seeded random configurations and requests from the richer grammar of
 //                        routergen_test.go, observations recorded for TLC trace validation (TV)
 
@@ -31,9 +32,10 @@ func TestVerifC01Replay(t *testing.T) {
 		}
 		gone := []interface{}{}
 		for si, st := range beh[1:] {
-			if vx.Str(st["a"]) == "unmap" { // HttpRouter!Unmap: the backend is deleted, the server is not reloaded
-				delete(mx.rec.known, vx.Str(st["be"]))
-				gone = append(gone, vx.Str(st["be"]))
+			if mx.rhMapStep(st) { // HttpRouter!Unmap / Map / Remap: the table changes, the server is not reloaded
+				if vx.Str(st["a"]) == "unmap" {
+					gone = append(gone, vx.Str(st["be"]))
+				}
 				unmaps++
 			}
 			if vx.Str(st["a"]) != "req" {
